@@ -82,9 +82,9 @@ def cases(tier, seed):
 
 def _loader_cases(tier, seed):
     out = []
-    for entry in ("align", "align_multi_templates", "align_multi_templates:default", "group.align", "group.align_multi_templates", "align_no_template"):
+    for entry in ("align", "align(stack)", "align(list)", "align_multi_templates", "align_multi_templates:default", "group.align", "group.align_multi_templates", "align_no_template"):
         for form in ("scalar", "tuple"):
-            for scale in (1.0, 0.4):
+            for scale in (1.0, 0.4, 2.5):
                 for model in ("ZNCC", "PCC") if tier == "quick" else MODELS:
                     for mpx in (0.33, 1.37, 0.0, 2.5):
                         if entry.endswith("default") and (form != "scalar" or mpx != 0.33):
@@ -214,6 +214,10 @@ def _run_loader(case):
     try:
         if entry == "align":
             outs = [loader.align(t0, max_shifts=max_shifts, alignment_model=model).molecules]
+        elif entry == "align(stack)":
+            outs = [loader.align(np.stack([t0, t1]), max_shifts=max_shifts, alignment_model=model).molecules]
+        elif entry == "align(list)":
+            outs = [loader.align([t1, t0], max_shifts=max_shifts, alignment_model=model).molecules]
         elif entry == "align_multi_templates":
             outs = [loader.align_multi_templates([t0, t1], max_shifts=max_shifts, alignment_model=model).molecules]
         elif entry == "align_multi_templates:default":
